@@ -282,7 +282,7 @@ PROPS["C05"] = {
 }
 PROPS["C07"] = {
     "functions": ["_component.start_component", "_component._init_component", "_component._start_component",
-                  "_component._watch_component_tree_startup", "lemma:frame"],
+                  "_component._watch_component_tree_startup", "_utils.coalesce_exceptions", "lemma:frame"],
     "trusted": COMP_TRUSTED, "assumptions": COMP_ASSUME,
     "undecided": ["'no part of the tree is still running once start_component has raised' rests on A-TG2 (task group exit waits for / cancels all "
                   "children) - bounded harness", "timeout: that the watchdog's TimeoutError cancels the startup and comes out of start_component unchanged rests on A-TG2 and coalesce_exceptions - bounded harness"],
